@@ -16,13 +16,13 @@ from ..spaces import tokens as T, sentences as S
 ID = 'C20'
 
 BOUNDS = {
-    'quick': dict(LQ=5, LF=3, N=1, PAIRS=40, STRAY=3),
-    'thorough': dict(LQ=6, LF=4, N=2, PAIRS=400, STRAY=9),
+    'quick': dict(LQ=5, LF=3, N=1, PAIRS=40, STRAY=5),
+    'thorough': dict(LQ=6, LF=4, N=2, PAIRS=400, STRAY=14),
 }
 
 EOF_RE = re.compile(r'end of input|end of file|\bEOF\b|unexpected end', re.I)
 LINE_RE = re.compile(r'line\s+(\d+)')
-STRAY = [')', 'a', '=', '1', ']', ',', '"s"', 'else', '=>']
+STRAY = [')', 'a', '0', '=', 'x' * 300, '1', ']', ',', '"s"', 'else', '=>', '"' + 'y' * 300 + '"', '0.0', '%' + 'z' * 250 + '%']
 
 
 def layout_flags(text, pos):
